@@ -381,7 +381,7 @@ func (g *Gen) Device(t *GConf, nedits int, unmanaged bool) (*GConf, []string) {
 			}
 			continue
 		}
-		switch g.Rng.Intn(21) {
+		switch g.Rng.Intn(22) {
 		case 0: // generated names on device
 			for _, a := range d.ACLs {
 				old := a.Name
@@ -564,6 +564,46 @@ func (g *Gen) Device(t *GConf, nedits int, unmanaged bool) (*GConf, []string) {
 					d.Binds = append(d.Binds, [3]string{n, "out", intf})
 					ops = append(ops, "binding-extra")
 				}
+			}
+		case 21: // sub-mode edits, toplevel deletes and clean-up mixed in one run
+			n0 := len(ops)
+			for _, gr := range d.Groups {
+				if g.Rng.Intn(3) != 0 {
+					gr.Members = append(gr.Members, "host "+g.host())
+					ops = append(ops, "group-few-members")
+				}
+			}
+			if len(d.ACLs) > 0 && g.Rng.Intn(3) != 0 {
+				a := d.ACLs[g.Rng.Intn(len(d.ACLs))]
+				i := g.Rng.Intn(len(a.Lines) + 1)
+				a.Lines = append(a.Lines[:i:i], append([]string{g.ACE(d)}, a.Lines[i:]...)...)
+				a.Lines = dedupLines(a.Lines, g.Kind == "ios")
+				ops = append(ops, "acl-line-extra")
+			}
+			if len(d.Routes) > 0 && g.Rng.Intn(3) != 0 {
+				i := g.Rng.Intn(len(d.Routes))
+				w := strings.Fields(d.Routes[i])
+				if strings.Count(w[len(w)-1], ".") == 3 {
+					w[len(w)-1] = nearAddr(g.Rng, w[len(w)-1])
+					d.Routes[i] = strings.Join(w, " ")
+					ops = append(ops, "route-near-value")
+				}
+			}
+			if g.Rng.Intn(3) != 0 {
+				drc++
+				if g.Kind == "asa" {
+					d.Groups = append(d.Groups, &GGroup{fmt.Sprintf("g9-DRC-%d", drc), []string{"host " + g.host()}})
+				}
+				d.ACLs = append(d.ACLs, &GACL{fmt.Sprintf("old_acl-DRC-%d", drc), []string{g.ACE(d), g.denyAll()}})
+				ops = append(ops, "leftover-generated-objects")
+			}
+			if g.Kind == "ios" && len(d.Binds) > 0 && g.Rng.Intn(2) == 0 {
+				i := g.Rng.Intn(len(d.Binds))
+				d.Binds = append(d.Binds[:i], d.Binds[i+1:]...)
+				ops = append(ops, "binding-missing")
+			}
+			if len(ops) > n0 {
+				ops = append(ops, "mode-mix")
 			}
 		case 19: // one ACL line differs from the target's in one character
 			if len(d.ACLs) > 0 {
